@@ -24,7 +24,8 @@ ATOMS = ['string', 'number', 'boolean', 'object', 'bigint', 'symbol', 'null', 'u
          'Uppercase<"a">', 'Lowercase<"A">', 'Capitalize<"a">', 'Uncapitalize<"A">', 'Parameters<typeof fn0>', 'ConstructorParameters<typeof Cls0>',
          'NonNullable<string | null>', 'NonNullable<null>', 'NonNullable<Al0 | undefined>', 'Exclude<string | number, number>', 'Extract<string | number, number>', 'OmitThisParameter<() => void>',
          'Al0', 'Al1', 'Al2', 'If0', 'If1', 'If2', 'Rec0', 'Cls0', 'Imported0', 'Rec0["a"]', 'Rec0["a" | "b"]', 'Rec0[string]', 'If0["m"]', 'string[][number]', '[string, number][0]', '[string, boolean][number]',
-         'Array<Date>[number]', 'Al3["x"]', '(string)', '(string | number)[]', 'keyof Rec0', 'typeof fn0']
+         'Array<Date>[number]', 'Al3["x"]', 'If0[string]', 'If0["a" | "m"]', 'Al4["go"]', 'Al4[Keys0]', 'If3', 'If3["a"]', 'If4', '[string, ...number[]][number]', '[string, ...Date[]][0]', 'Tup0[1]', 'Tup0[number]',
+         'Arr0[number]', '{ a: string; f(): void }["f"]', 'If5', '(string)', '(string | number)[]', 'keyof Rec0', 'typeof fn0']
 DECLS = '''type Al0 = string | number;
 type Al1 = Al0 | null;
 type Al2 = { a: string } | (() => void);
@@ -36,6 +37,13 @@ interface Rec0 { a: string; b?: number }
 class Cls0 {}
 function fn0(a: string) {}
 import type { Imported0 } from "./other";
+type Al4 = { go(v: string): void; label: string };
+type Keys0 = 'go' | 'label';
+interface If3 extends Rec0 {}
+interface If4 extends If2 {}
+interface If5 extends If1 { extra: string }
+type Tup0 = [Date, () => void];
+type Arr0 = bigint[];
 '''
 
 
@@ -154,10 +162,8 @@ def inhabitants(te, t, depth=0):
             if nm in te.aliases:
                 return inhabitants(te, te.aliases[nm], depth + 1)
             if nm in te.interfaces:
-                ms = []
-                for d in te.interfaces[nm]:
-                    ms.extend(d.get('body').get('body'))
-                if not ms and any(d.get('extends') for d in te.interfaces[nm]):
+                ms = _interface_members(te, nm, 0)
+                if ms is None:
                     return set()
                 return _members_kind(ms)
         for c in BUILTIN_CLASSES:
@@ -184,8 +190,156 @@ def inhabitants(te, t, depth=0):
             return (inhabitants(te, params[0], depth + 1) - {'null'}) if params else set()
         return set()
     if v == 'TsIndexedAccessType':
-        return set()
+        return _indexed_inhabitants(te, deref(t.fields[0].get('obj_type')), deref(t.fields[0].get('index_type')), depth)
     return set()
+
+
+def _interface_members(te, nm, depth):
+    """own and inherited members of interface `nm` (declaration merging included); None when a parent cannot be followed"""
+    if depth > 6 or nm not in te.interfaces:
+        return None
+    ms = []
+    for d in te.interfaces[nm]:
+        ms.extend(d.get('body').get('body'))
+        for ex in d.get('extends'):
+            e = denote.E(ex.get('expr'))
+            if not denote.is_expr(e, 'Ident'):
+                return None
+            pn = denote.pystr(e.fields[0].get('sym'))
+            if pn in te.interfaces:
+                sub = _interface_members(te, pn, depth + 1)
+            elif pn in te.aliases and deref(te.aliases[pn]).variant == 'TsTypeLit':
+                sub = list(deref(te.aliases[pn]).fields[0].get('members'))
+            else:
+                sub = None
+            if sub is None:
+                return None
+            ms.extend(sub)
+    return ms
+
+
+def _object_members(te, t, depth):
+    """members of an object-like type (literal, interface, alias of those) or None"""
+    t = deref(t)
+    if depth > 6:
+        return None
+    if t.variant == 'TsTypeLit':
+        return list(t.fields[0].get('members'))
+    if t.variant == 'TsParenthesizedType':
+        return _object_members(te, t.fields[0].get('type_ann'), depth + 1)
+    if t.variant == 'TsTypeRef':
+        tn = t.fields[0].get('type_name')
+        if tn.variant != 'Ident' or not tn.fields[0].get('sym').is_concrete():
+            return None
+        nm = tn.fields[0].get('sym').py()
+        if nm in te.aliases:
+            return _object_members(te, te.aliases[nm], depth + 1)
+        if nm in te.interfaces:
+            return _interface_members(te, nm, 0)
+    return None
+
+
+def _index_keys(te, idx, depth):
+    """-> ('all-strings' | 'number' | set of literal keys | None)"""
+    idx = deref(idx)
+    if depth > 6:
+        return None
+    if idx.variant == 'TsKeywordType':
+        return {'TsStringKeyword': 'all-strings', 'TsNumberKeyword': 'number'}.get(kw(idx))
+    if idx.variant == 'TsLitType':
+        l = idx.fields[0].get('lit')
+        if l.variant == 'Str':
+            return {denote.pystr(l.fields[0].get('value'))}
+        if l.variant == 'Number':
+            v = l.fields[0].get('value')
+            return {int(v)} if v == int(v) else None
+        return None
+    if idx.variant == 'TsParenthesizedType':
+        return _index_keys(te, idx.fields[0].get('type_ann'), depth + 1)
+    if idx.variant == 'TsUnionOrIntersectionType' and idx.fields[0].variant == 'TsUnionType':
+        out = set()
+        for x in idx.fields[0].fields[0].get('types'):
+            k = _index_keys(te, x, depth + 1)
+            if not isinstance(k, set):
+                return None
+            out |= k
+        return out
+    if idx.variant == 'TsTypeRef':
+        tn = idx.fields[0].get('type_name')
+        if tn.variant == 'Ident' and tn.fields[0].get('sym').is_concrete() and tn.fields[0].get('sym').py() in te.aliases:
+            return _index_keys(te, te.aliases[tn.fields[0].get('sym').py()], depth + 1)
+    return None
+
+
+def _member_key(m):
+    k = denote.E(m.fields[0].get('key'))
+    if m.fields[0].names and 'computed' in m.fields[0].names and m.fields[0].get('computed'):
+        return None
+    if denote.is_expr(k, 'Ident'):
+        return denote.pystr(k.fields[0].get('sym'))
+    s = denote.str_lit(k)
+    return s.py() if s is not None and s.is_concrete() else None
+
+
+def _indexed_inhabitants(te, obj, idx, depth):
+    """values of `obj[idx]` for the simple shapes: property / method lookup by literal keys or `string`, array and tuple elements.
+    Under-approximation: anything else yields the empty set (no demand)."""
+    keys = _index_keys(te, idx, depth)
+    if keys is None:
+        return set()
+    o = obj
+    while o.variant in ('TsParenthesizedType',) or (o.variant == 'TsTypeOperator' and o.fields[0].get('op').variant == 'ReadOnly'):
+        o = deref(o.fields[0].get('type_ann'))
+    if o.variant == 'TsTypeRef' and o.fields[0].get('type_name').variant == 'Ident' and o.fields[0].get('type_name').fields[0].get('sym').is_concrete():
+        nm = o.fields[0].get('type_name').fields[0].get('sym').py()
+        if nm in te.aliases and deref(te.aliases[nm]).variant in ('TsArrayType', 'TsTupleType', 'TsTypeRef', 'TsParenthesizedType', 'TsTypeOperator'):
+            return _indexed_inhabitants(te, deref(te.aliases[nm]), idx, depth + 1)
+        if nm in ('Array', 'ReadonlyArray') and nm not in te.aliases and nm not in te.interfaces and is_some(o.fields[0].get('type_params')):
+            ps = deref(o.fields[0].get('type_params').fields[0]).get('params')
+            if keys == 'number' and len(ps) == 1:
+                return inhabitants(te, ps[0], depth + 1)
+            return set()
+    if o.variant == 'TsArrayType':
+        return inhabitants(te, o.fields[0].get('elem_type'), depth + 1) if keys == 'number' else set()
+    if o.variant == 'TsTupleType':
+        els = o.fields[0].get('elem_types')
+        def elem(e):
+            ty = deref(deref(e).get('ty'))
+            if ty.variant == 'TsRestType':
+                inner = deref(ty.fields[0].get('type_ann'))
+                if inner.variant == 'TsArrayType':
+                    return inhabitants(te, inner.fields[0].get('elem_type'), depth + 1)
+                return set()
+            return inhabitants(te, ty, depth + 1)
+        if keys == 'number':
+            out = set()
+            for e in els:
+                out |= elem(e)
+            return out
+        if isinstance(keys, set) and all(isinstance(k, int) for k in keys):
+            out = set()
+            for k in keys:
+                if 0 <= k < len(els) and deref(deref(els[k]).get('ty')).variant != 'TsRestType' and not any(deref(deref(e).get('ty')).variant == 'TsRestType' for e in els[:k]):
+                    out |= elem(els[k])
+            return out
+        return set()
+    ms = _object_members(te, o, depth)
+    if ms is None or keys == 'number':
+        return set()
+    out = set()
+    for m in ms:
+        m = deref(m)
+        if m.variant not in ('TsPropertySignature', 'TsMethodSignature', 'TsGetterSignature'):
+            continue
+        k = _member_key(m)
+        if k is None:
+            continue
+        if keys == 'all-strings' or k in keys:
+            if m.variant == 'TsMethodSignature':
+                out |= {'function'}
+            elif is_some(m.fields[0].get('type_ann')):
+                out |= inhabitants(te, deref(m.fields[0].get('type_ann').fields[0]).get('type_ann'), depth + 1)
+    return out
 
 
 def _members_kind(members):
